@@ -391,7 +391,7 @@ def _emit_shard(args):
         if not ln.endswith('">>'):
             raise tlc.MachineryError("truncated scenario line: " + ln[:200])
         sc = json.loads(_unq(ln[len(_SC):-3]))
-        if sc["bad"] != "ok" and not (sc["bad"] == "SensitiveStripped" and sc["cfg"]["client"] == "proxy"):
+        if sc["bad"] not in ("ok", "SensitiveStripped@forwarding-proxy-own-origin"):   # the recorded deviation D10
             raise tlc.MachineryError(f"the Model itself violates {sc['bad']} in an emitted scenario: {json.dumps(sc)[:600]}")
         scs.append(sc)
         traces.append(run_scenario(sc, skip))
